@@ -151,20 +151,10 @@ Proof.
   destruct (uint_chk_spec (a / b)) as [[_ ->]|[Hn _]]; [split; auto; lia|unfold in_uint in Hn; lia].
 Qed.
 
-(* the Uint text decoder is NOT the Uint range check (finding F10) *)
-Theorem uint_unmarshal_refuted :
-  (exists z, in_uint z /\ uint_unmarshal z = None) /\ (exists z, ~ in_uint z /\ uint_unmarshal z = Some z).
-Proof.
-  split.
-  - exists (2 ^ 255). split; [unfold in_uint; lia|vm_compute; reflexivity].
-  - exists (-1). split; [unfold in_uint; lia|vm_compute; reflexivity].
-Qed.
-(* what does hold: values below 2^255 round-trip *)
-Theorem uint_unmarshal_partial z : 0 <= z < 2 ^ 255 -> uint_unmarshal z = Some z.
-Proof.
-  intros H. unfold uint_unmarshal. destruct (int_chk_spec z) as [[_ ->]|[Hn _]]; auto.
-  unfold in_int in Hn; lia.
-Qed.
+(* the Uint text decoder accepts exactly the Uint range (after the repair of F10) *)
+Theorem uint_unmarshal_exact z :
+  (in_uint z /\ uint_unmarshal z = Some z) \/ (~ in_uint z /\ uint_unmarshal z = None).
+Proof. apply uint_chk_spec. Qed.
 Theorem int_unmarshal_exact z :
   (in_int z /\ int_unmarshal z = Some z) \/ (~ in_int z /\ int_unmarshal z = None).
 Proof. apply int_chk_spec. Qed.
